@@ -4,6 +4,7 @@ import (
 	"bytes"
 	"fmt"
 	"math/rand"
+	"net"
 	"os"
 	"path/filepath"
 	"sync"
@@ -201,6 +202,80 @@ func TestC14Extra(t *testing.T) {
 			rep.Cases++
 			cn.Close()
 		}
+	}
+	// ---- (d) the server grants less than the client proposes: the client works with the granted msize
+	for _, dotu := range []bool{false, true} {
+		env2, err := NewEnvMsize(1024)
+		if err != nil {
+			rep.Inconc(err.Error())
+			return
+		}
+		c1, c2 := net.Pipe()
+		env2.Ufs.NewConn(c1)
+		clnt, err := go9p.Connect(c2, 8192, dotu)
+		if err != nil {
+			rep.Inconc("connect: " + err.Error())
+			env2.Close()
+			continue
+		}
+		cfg := fmt.Sprintf("server msize 1024, client proposes 8192, dotu=%v", dotu)
+		fid, aerr := clnt.Attach(nil, &hUser{0, uname(0)}, "")
+		if aerr != nil {
+			rep.Inconc("attach: " + aerr.Error())
+		} else {
+			clnt.Root = fid
+			content := PatBuf(11, 5000)
+			_ = os.WriteFile(filepath.Join(env2.Root, "g"), content, 0o644)
+			if f, e := clnt.FOpen("g", go9p.ORDWR); e != nil {
+				rep.Inconc("open: " + e.Error())
+			} else {
+				buf := make([]byte, len(content)+10)
+				n, rerr := f.Readn(buf, 0)
+				if rerr != nil || n != len(content) || !bytes.Equal(buf[:n], content) {
+					rep.Violate("c14:extra:granted-msize-read", fmt.Sprintf("Readn of a %d-byte file returned (%d, %v) (%s; the client's msize is %d)", len(content), n, rerr, cfg, clnt.Msize),
+						map[string]any{"engine": "TestC14Extra", "cfg": cfg})
+				}
+				w := PatBuf(12, 3000)
+				wn, werr := f.Written(w, 100)
+				got, _ := os.ReadFile(filepath.Join(env2.Root, "g"))
+				if werr != nil || wn != len(w) || len(got) < 3100 || !bytes.Equal(got[100:3100], w) {
+					rep.Violate("c14:extra:granted-msize-write", fmt.Sprintf("Writen of %d bytes returned (%d, %v); the file has them: %v (%s)", len(w), wn, werr, len(got) >= 3100 && bytes.Equal(got[100:3100], w), cfg),
+						map[string]any{"engine": "TestC14Extra", "cfg": cfg})
+				}
+				f.Close()
+			}
+		}
+		clnt.Unmount()
+		env2.Close()
+		rep.Cases++
+	}
+	// ---- (e) opened with OTRUNC, then written
+	for _, dotu := range []bool{false, true} {
+		cn, err := env.Dial(4096, dotu, false)
+		if err != nil {
+			rep.Inconc(err.Error())
+			return
+		}
+		for _, mode := range []uint8{go9p.OWRITE | go9p.OTRUNC, go9p.ORDWR | go9p.OTRUNC} {
+			name := fmt.Sprintf("t-%d-%v", mode, dotu)
+			path := filepath.Join(env.Root, name)
+			_ = os.WriteFile(path, PatBuf(13, 700), 0o644)
+			f, e := cn.Clnt.FOpen(name, mode)
+			if e != nil {
+				rep.Inconc("open with OTRUNC: " + e.Error())
+				continue
+			}
+			w := PatBuf(14, 333)
+			wn, werr := f.Written(w, 0)
+			got, _ := os.ReadFile(path)
+			if werr != nil || wn != len(w) || !bytes.Equal(got, w) {
+				rep.Violate("c14:extra:write-after-otrunc", fmt.Sprintf("file of 700 bytes opened with mode %d (OTRUNC), Writen of %d bytes returned (%d, %v); the file now has %d bytes, equal to what was written: %v (dotu=%v)",
+					mode, len(w), wn, werr, len(got), bytes.Equal(got, w), dotu), map[string]any{"engine": "TestC14Extra", "mode": mode, "dotu": dotu})
+			}
+			f.Close()
+			rep.Cases++
+		}
+		cn.Close()
 	}
 	rep.Distinct = rep.Cases
 	rep.Sample(map[string]any{"zero_length_writes": "File.Write/WriteAt/Clnt.Write of 0 bytes between writes of 1, 3 and iounit bytes",
